@@ -4,17 +4,21 @@ import NdnModel.Pit
 
 Nothing here mentions the trie, the node objects, their pending lists or any other Interest:
 the specification of the pending-Interest table is a *per-Interest automaton*.  One Interest is a request
-`Req` (name, implicit digest, CanBePrefix, deadline, and the scripted behaviour of the validator supplied with it)
-plus a state `waiting | validating d fin | done outcome time`; every event acts on it through
+`Req` (name, implicit digest, CanBePrefix, effective deadline, the instant of its first await, and the scripted
+behaviour of the validator supplied with it) plus a state
+`waiting | validating d fin | held outcome | done outcome time`; every event acts on it through
 `specReact`, which looks only at the request itself, its own index (for caller cancellation) and the clock.
 
 * `Matches r nm dg` — the property statement's "that Data matches it": same name, or a longer name when
   CanBePrefix is set, and the packet hash when the Interest carries an implicit digest;
 * `Named r nm dg` — a Nack names the Interest: equal name, equal implicit digest (component for component);
-* `taken` — the first matching Data decides: the Interest leaves the table and its validator runs
+* `taken` (model file) — the first matching Data decides: the Interest leaves the table and its validator runs
   (an answer without latency is given in the same instant);
+* `resolve` (model file) — the future gets its result: the caller has it now if it is awaiting, otherwise it is
+  `held` until the first await;
 * `specFire` — timers: the deadline of a waiting Interest; completion of validation (v2: only before the
   deadline, otherwise the deadline wins; legacy: the timer is disarmed once the Data was taken — finding F15);
+  the first await of a held result;
 * `Spec.step` — the abstract table: the list of requests with their states, all reacting independently.
 -/
 namespace Ndn.Pit
@@ -30,15 +34,10 @@ def Named (r : Req) (nm : Name) (dg : Option Nat) : Prop := r.name = nm ∧ r.im
 instance (r : Req) (nm : Name) (dg : Option Nat) : Decidable (Named r nm dg) := by
   unfold Named; infer_instance
 
-/-- state of a request right after the first matching Data `d` was taken at time `now` -/
-def taken (fe : FrontEnd) (now : Nat) (r : Req) (d : Nat) : IState :=
-  match (if r.lat = 0 then validatorOutcome fe r.verdict d else none) with
-  | some o => .done o now
-  | none => .validating d (now + r.lat)
-
 /-- the timers of one request that are due at time `t` -/
 def specFire (fe : FrontEnd) (t : Nat) (r : Req) : IState → IState
   | .waiting => if r.deadline ≤ t then .done .timeout r.deadline else .waiting
+  | .held o => if r.awaitAt ≤ t then .done o r.awaitAt else .held o
   | .validating d fin =>
     match fe with
     | .v1 =>
@@ -50,24 +49,37 @@ def specFire (fe : FrontEnd) (t : Nat) (r : Req) : IState → IState
     | .v2 =>
       match validatorOutcome .v2 r.verdict d with
       | some o =>
-        if fin ≤ t ∧ fin < r.deadline then .done o fin
+        if fin ≤ t ∧ fin < r.deadline then (if r.awaitAt ≤ t then .done o (max fin r.awaitAt) else .held o)
         else if r.deadline ≤ t then .done .timeout r.deadline
         else .validating d fin
       | none => if r.deadline ≤ t then .done .timeout r.deadline else .validating d fin
   | .done o t' => .done o t'
 
-/-- a caller cancellation ends the request unless it has finished -/
-def specCancel (now : Nat) : IState → IState
+/-- a caller cancellation ends the request unless it has finished, or has not been awaited yet (then there is
+    nothing the caller could cancel), or its result is only waiting to be fetched -/
+def specCancel (now : Nat) (r : Req) (s : IState) : IState :=
+  if now < r.awaitAt then s else
+  match s with
   | .done o t => .done o t
+  | .held o => .held o
   | _ => .done .cancelled now
+
+/-- the state a request starts in -/
+def initSt (fe : FrontEnd) (now : Nat) (nr : Bool) : IState :=
+  if silent fe nr then .done .noResponse now else .waiting
+
+/-- the timers due strictly before the instant the clock has reached -/
+def specReach (fe : FrontEnd) (t' : Nat) (r : Req) (s : IState) : IState :=
+  if t' = 0 then s else specFire fe (t' - 1) r s
 
 /-- what one event does to request number `i` -/
 def specReact (fe : FrontEnd) (now : Nat) (i : Nat) (r : Req) (s : IState) : Ev → IState
   | .data nm dg d => if s = .waiting ∧ Matches r nm dg then taken fe now r d else s
-  | .nack nm dg rsn => if s = .waiting ∧ Named r nm dg then .done (.nack rsn) now else s
-  | .cancel j => if j = i then specCancel now s else s
-  | .shutdown => if s = .waiting then .done .cancelled now else s
+  | .nack nm dg rsn => if s = .waiting ∧ Named r nm dg then resolve now r (.nack rsn) else s
+  | .cancel j => if j = i then specCancel now r s else s
+  | .shutdown => if s = .waiting then resolve now r .cancelled else s
   | .tick t => specFire fe (max now t) r s
+  | .reach t => specReach fe (max now t) r s
   | .express .. => s
 
 /-- the abstract table of pending Interests -/
@@ -86,9 +98,11 @@ def Spec.react (fe : FrontEnd) (S : Spec) (ev : Ev) : List IState :=
 def Spec.step (fe : FrontEnd) (S : Spec) (ev : Ev) : Spec :=
   let sts := S.react fe ev
   match ev with
-  | .express nm imp cbp life v lat =>
-    { S with reqs := S.reqs ++ [⟨nm, imp, cbp, S.clock + life, v, lat⟩], sts := sts ++ [.waiting] }
+  | .express nm imp cbp life v lat defer nr =>
+    let r := mkReq fe S.clock nm imp cbp life v lat defer
+    { S with reqs := S.reqs ++ [r], sts := sts ++ [specFire fe S.clock r (initSt fe S.clock nr)] }
   | .tick t => { S with clock := max S.clock t, sts := sts }
+  | .reach t => { S with clock := max S.clock t, sts := sts }
   | _ => { S with sts := sts }
 
 def Spec.run (fe : FrontEnd) (evs : List Ev) : Spec := evs.foldl (Spec.step fe) {}
@@ -102,28 +116,47 @@ namespace Ndn.Pit
 
 /-! ### what justifies an outcome (history-level specification; mentions only the abstract table) -/
 
-/-- lifetimes are positive -/
-def WFEv : Ev → Prop
-  | .express _ _ _ life _ _ => 0 < life
-  | _ => True
+/-- a history without same-turn ties: no packet is handled ahead of the timers of its instant -/
+def NoTie (evs : List Ev) : Prop := ∀ ev ∈ evs, ∀ t, ev ≠ .reach t
 
-/-- At time `at`, before its deadline and while request `i` was still waiting, a Data with content id `d`
-    that matches the request arrived. -/
+/-- At time `at`, not after its deadline (at the deadline instant itself only in a tie: the packet ahead of the
+    timer) and while request `i` was still waiting, a Data with content id `d` that matches the request arrived. -/
 def TakenAt (fe : FrontEnd) (evs : List Ev) (i : Nat) (r : Req) (d at_ : Nat) : Prop :=
   ∃ pre post nm dg, evs = pre ++ Ev.data nm dg d :: post ∧ (Spec.run fe pre).sts[i]? = some .waiting ∧
-    Matches r nm dg ∧ (Spec.run fe pre).clock = at_ ∧ at_ < r.deadline
+    Matches r nm dg ∧ (Spec.run fe pre).clock = at_ ∧ at_ ≤ r.deadline
 
-/-- the history justifies that request `i` is in state `s` now -/
-def Justified (fe : FrontEnd) (evs : List Ev) (i : Nat) (r : Req) : IState → Prop
-  | .waiting => (Spec.run fe evs).clock < r.deadline
-  | .validating d fin => ∃ at_, TakenAt fe evs i r d at_ ∧ fin = at_ + r.lat
-  | .done .timeout t => t = r.deadline ∧ r.deadline ≤ (Spec.run fe evs).clock
-  | .done (.nack rsn) t => ∃ pre post nm dg, evs = pre ++ Ev.nack nm dg rsn :: post ∧
-      (Spec.run fe pre).sts[i]? = some .waiting ∧ Named r nm dg ∧ (Spec.run fe pre).clock = t
-  | .done .cancelled t => ∃ pre post, (evs = pre ++ Ev.cancel i :: post ∨ evs = pre ++ Ev.shutdown :: post) ∧
+/-- the history justifies that the future of request `i` was resolved with `o` at time `t0` -/
+def Resolved (fe : FrontEnd) (evs : List Ev) (i : Nat) (r : Req) : Outcome → Nat → Prop
+  | .nack rsn, t0 => ∃ pre post nm dg, evs = pre ++ Ev.nack nm dg rsn :: post ∧
+      (Spec.run fe pre).sts[i]? = some .waiting ∧ Named r nm dg ∧ (Spec.run fe pre).clock = t0
+  | .cancelled, t0 => ∃ pre post, (evs = pre ++ Ev.cancel i :: post ∨ evs = pre ++ Ev.shutdown :: post) ∧
+      (Spec.run fe pre).clock = t0
+  | .timeout, _ => False
+  | .noResponse, _ => False
+  | o, t0 => ∃ d at_, TakenAt fe evs i r d at_ ∧ t0 = vstart fe at_ r + r.lat ∧
+      validatorOutcome fe r.verdict d = some o ∧ (fe = .v2 → t0 < r.deadline ∨ r.lat = 0)
+
+/-- the history justifies that request `i` is in state `s` when the clock reads `c` -/
+def JustifiedAt (c : Nat) (fe : FrontEnd) (evs : List Ev) (i : Nat) (r : Req) : IState → Prop
+  | .waiting => c ≤ r.deadline
+  | .validating d fin => ∃ at_, TakenAt fe evs i r d at_ ∧ fin = vstart fe at_ r + r.lat
+  | .held o => c ≤ r.awaitAt ∧ ∃ t0, Resolved fe evs i r o t0 ∧ t0 ≤ r.awaitAt
+  | .done .timeout t => t = r.deadline ∧ r.deadline ≤ c
+  | .done .noResponse t => fe = .v2 ∧ ∃ pre post nm imp cbp life v lat defer,
+      evs = pre ++ Ev.express nm imp cbp life v lat defer true :: post ∧ (Spec.run fe pre).reqs.length = i ∧
       (Spec.run fe pre).clock = t
-  | .done o t => ∃ d at_, TakenAt fe evs i r d at_ ∧ t = at_ + r.lat ∧ validatorOutcome fe r.verdict d = some o ∧
-      (fe = .v2 → t < r.deadline)
+  | .done o t => ∃ t0, Resolved fe evs i r o t0 ∧ t = max t0 r.awaitAt
+
+/-- the history justifies that request `i` is in state `s` now:
+    * `waiting`: the deadline has not passed (the clock may read the deadline only inside a tie turn);
+    * `validating d fin`: Data `d` was taken (`TakenAt`) and its validator, started at `vstart`, needs until `fin`;
+    * `held o`: the future was resolved with `o` (`Resolved`), the first await is still to come;
+    * `done timeout t`: `t` is the deadline and it has passed;
+    * `done noResponse t`: the request was expressed at `t` with `no_response` (current front-end);
+    * `done o t` otherwise: the future was resolved with `o` at some `t0` and the caller learnt it at
+      `t = max t0 awaitAt` (at once when it was awaiting, at its first await otherwise). -/
+def Justified (fe : FrontEnd) (evs : List Ev) (i : Nat) (r : Req) (s : IState) : Prop :=
+  JustifiedAt (Spec.run fe evs).clock fe evs i r s
 
 end Ndn.Pit
 
@@ -133,6 +166,7 @@ namespace Ndn.Pit
 
 def clockStep (c : Nat) : Ev → Nat
   | .tick t => max c t
+  | .reach t => max c t
   | _ => c
 
 def reqTrace (fe : FrontEnd) (i : Nat) (r : Req) : Nat → IState → List Ev → IState
